@@ -246,6 +246,9 @@ _RE_UNUSABLE = re.compile(rb"Unusable reference will be ignored in file (.*?), l
 _RE_TOTAL_FILE = re.compile(rb"Total missing references in (.*): ([0-9]+)")
 _RE_TOTAL_ALL = re.compile(rb"Total missing references \(all files\): ([0-9]+)")
 _RE_INSERTED = re.compile(rb"Num\. inserted reference\(s\): ([0-9]+)")
+# fall-backs for reworded summaries (the properties cite only the per-statement phrase literally)
+_RE_TOTAL_ALL2 = re.compile(rb"(?i)missing references[^0-9\n]*all files[^0-9\n]*?([0-9]+)")
+_RE_INSERTED2 = re.compile(rb"(?i)inserted[^0-9\n]*?([0-9]+)")
 _RE_READFAIL = re.compile(rb"Failed to read file (.*?): ")
 
 
@@ -270,11 +273,11 @@ class Report:
             if m:
                 self.file_totals[m.group(1).decode("utf-8", "surrogateescape")] = int(m.group(2))
                 continue
-            m = _RE_TOTAL_ALL.search(line)
+            m = _RE_TOTAL_ALL.search(line) or _RE_TOTAL_ALL2.search(line)
             if m:
                 self.total = int(m.group(1))
                 continue
-            m = _RE_INSERTED.search(line)
+            m = _RE_INSERTED.search(line) or _RE_INSERTED2.search(line)
             if m:
                 self.inserted = int(m.group(1))
                 continue
